@@ -158,6 +158,7 @@ HOT_FILES = frozenset({
     "_internal/retort/base_retort.py", "_internal/retort/routers.py", "_internal/code_tools/compiler.py",
     "_internal/utils.py", "_internal/morphing/facade/func.py", "_internal/conversion/facade/func.py",
     "_internal/type_tools/normalize_type.py",      # the process-wide normaliser and its cache are shared state too
+    "_internal/code_tools/ast_templater.py",       # the AST templater: its walk calls back into adaptix from the stdlib
 })
 
 
@@ -201,14 +202,39 @@ def gen(seed, cfg=None):
             prologue = [{"op": "dump", "h": 0, "t": t, "o": pools.dump_battery(t)[0]}]
             programs = [[{"op": "dump", "h": 0, "t": t, "o": rng.choice(pools.dump_battery(t))} for _ in range(rng.choice([1, 2, 3]))]
                         for _ in range(n_threads)]
+    elif cluster != "conv" and rng.random() < 0.04:
+        # data scale: one loader has already been called with n0 distinct data; one thread calls it with an early datum
+        # again while the other feeds it 150 new ones
+        t, g, rcp = rng.choice(pools.BULK_CALLS)
+        cluster = "datascale"
+        handle["recipe"] = rcp if handle.get("base") == "Retort" else "plain"
+        if handle["recipe"] != rcp:
+            t, g = "int", "int"
+        n0 = rng.choice([64, 128, 256, 512, 1024]) - rng.randint(5, 60)
+        gl = {"op": "get_loader", "h": 0, "t": t}
+        prologue = [gl, {"op": "bulk_call", "c": 0, "gen": g, "n": n0, "start": 0}]
+        programs = [[gl, {"op": "bulk_call", "c": 0, "gen": g, "n": rng.choice([1, 2]), "start": rng.choice([0, 0, n0 // 2])}],
+                    [gl, {"op": "bulk_call", "c": 0, "gen": g, "n": 150, "start": n0}]]
+        if n_threads == 3:
+            programs.append([gl, {"op": "bulk_call", "c": 0, "gen": g, "n": 3, "start": n0 - 2}])
     elif cluster != "conv" and rng.random() < 0.3:
         # the retort is already warm for something else when the threads start racing
         prologue = [op for op in gen_program(rng, cluster, rng.choice([1, 2]), about=about) if op["op"] in ("load", "dump")]
+    if cluster not in ("conv", "callrace") and rng.random() < 0.05:
+        # scale: the shared retort has already served hundreds or thousands of types (its caches are that large) and one
+        # thread keeps adding more while the other makes an ordinary first request that re-uses old cache entries
+        n0 = rng.choice([128, 256, 512, 1024, 2048, 4096]) - rng.randint(10, 110)
+        cluster = "scale"
+        old = [op for op in gen_program(rng, "models", 2, about=about) if op["op"] in ("load", "dump")]
+        prologue = [*old, {"op": "bulk", "h": 0, "n": n0, "start": 0}]
+        programs = [gen_program(rng, "models", rng.choice([1, 2]), None, about), [{"op": "bulk", "h": 0, "n": 150, "start": n0}]]
+        if n_threads == 3:
+            programs.append(gen_program(rng, "generic", 1, None, about))
     scn = {
         "engine": "schedsim", "seed": seed, "cluster": cluster, "handle": handle, "prologue": prologue, "threads": programs,
         "policy": gen_policy(rng, n_threads), "norm_cache": rng.choice([1, 2, 8, 128, 128]),
     }
-    if cluster == "callrace":
+    if cluster in ("callrace", "datascale"):
         r = rng.random()
         if r < 0.5:
             scn["policy"] = {"kind": "sweep1", "t": rng.randrange(n_threads), "mode": "uniform", "frac": rng.random()}
@@ -216,6 +242,9 @@ def gen(seed, cfg=None):
             scn["policy"] = {"kind": "walk", "seed": rng.getrandbits(32), "p": rng.choice([1 / 5, 1 / 20, 1 / 50])}
         else:
             scn["policy"] = {"kind": "rr", "q": rng.choice([1, 2, 3, 7])}
+    if cluster == "scale" and rng.random() < 0.7:
+        # the ordinary request is stopped once inside the lookup/creation/caching code, the bulk thread runs in between
+        scn["policy"] = {"kind": "sweep1", "t": 0, "mode": "hot", "frac": rng.random(), "f2": rng.random()}
     if (cfg or {}).get("instr_share", 0) > 0 and rng.random() < cfg["instr_share"]:
         scn["granularity"] = "instr"    # opcode-level preemption inside the hot files
     return scn
@@ -399,6 +428,9 @@ def execute(scn, refs):  # noqa: C901, PLR0912, PLR0915
             break
         seen[(name, idx)] = tid
     for op, d, obs in zip(scn.get("prologue") or [], ops.static_ref_descs([scn["handle"]], scn.get("prologue") or []), prologue_out):
+        if op["op"] in ("bulk", "bulk_call") and obs != ["skipped"] and obs[2]:
+            violations.append({"class": "unexpected-exception", "phase": "prologue", "op": op,
+                               "expected": ["bulk", op["n"], []], "observed": obs})
         if d is not None and obs != refs[canon(d)]:
             violations.append({"class": classify(refs[canon(d)], obs), "phase": "prologue", "op": op,
                                "expected": refs[canon(d)], "observed": obs})
@@ -414,6 +446,10 @@ def execute(scn, refs):  # noqa: C901, PLR0912, PLR0915
                 if op["op"] in ("replace", "extend") and obs[0] != "handle":
                     violations.append({"class": "unexpected-exception", "phase": "concurrent", "thread": t, "op_index": i,
                                        "op": op, "expected": ["handle"], "observed": obs})
+                    continue
+                if op["op"] in ("bulk", "bulk_call") and obs != ["skipped"] and obs[2]:
+                    violations.append({"class": "unexpected-exception", "phase": "concurrent", "thread": t, "op_index": i,
+                                       "op": op, "expected": ["bulk", op["n"], []], "observed": obs})
                     continue
                 if d is None or obs == ["skipped"]:
                     continue
